@@ -93,11 +93,16 @@ func (c *gengoCtx) Writer() SnippetWriter {
 }
 
 func (c *gengoCtx) Execute(ctx corecontext.Context, generators ...Generator) error {
+	// gengo.sum is read from and written to the module root of the first requested package (in sorted order),
+	// whether or not one exists there yet
+	sumDir := ""
+
 	if c.args.All {
 		for pkgPath, direct := range c.universe.LocalPkgPaths() {
 			if direct {
 				mod := c.universe.Package(pkgPath).Module()
 				if mod != nil {
+					sumDir = mod.Dir
 					c.sumFile, _ = sumfile.Load(mod.Dir)
 				}
 				break
@@ -118,8 +123,8 @@ func (c *gengoCtx) Execute(ctx corecontext.Context, generators ...Generator) err
 	if c.args.All {
 		sumFile := c.universe.SumFile()
 
-		if c.sumFile != nil {
-			sumFile.Dir = c.sumFile.Dir
+		if sumDir != "" {
+			sumFile.Dir = sumDir
 		}
 
 		return sumFile.Save()
